@@ -64,14 +64,18 @@ def unhexBytes (h : String) : List Nat :=
 
 /-- observables of a value built by ImportUint / ImportBytes (same fields as the harness' VC line) -/
 def valueLine (v : BMNumber) : String :=
-  let es := exportString v
+  let es := exportStringSpec v
   let u := match exportUint64 v with | some n => toString n | none => "!err"
+  let nbF := if 1 ≤ v.bits && v.bits ≤ 4096 then s!"nb={v.bits}:{optS (exportBinaryNBits v v.bits)}" else "nb=-"
+  let brt := match importString (exportBinary true v) with
+    | none => "brt=err"
+    | some m => s!"brt=ok:{tyName m.ty}:{m.bits}:{hexBytes m.bytes}"
   let rt := match es with
     | none => "rt=-"
     | some e => match importString e with
       | none => "rt=err"
       | some m => s!"rt=ok rty={tyName m.ty} rbits={m.bits} rbytes={hexBytes m.bytes}"
-  s!"ty={tyName v.ty} bits={v.bits} bytes={hexBytes v.bytes} u64={u} es={optS es} eb={str (exportBinary false v)} ebs={str (exportBinary true v)} vb={str (exportVerilogBinary v)} {rt} {omitFields v.ty es}"
+  s!"ty={tyName v.ty} bits={v.bits} bytes={hexBytes v.bytes} u64={u} es={optS es} eb={str (exportBinary false v)} ebs={str (exportBinary true v)} vb={str (exportVerilogBinary v)} {nbF} {brt} {rt} {omitFields v.ty es}"
 
 def step (_ : Unit) (line : String) : Unit × List String :=
   let fs := fields line
@@ -90,7 +94,14 @@ def step (_ : Unit) (line : String) : Unit × List String :=
       let isSigned : Bool := match importString s with | some v => v.ty == .signed | none => false
       if isSigned then ((), [l1, "CF" ++ (caseLine hex nl s true).drop 1]) else ((), [l1])
   | "V" :: "uint" :: w :: v :: ob :: _ =>
-    ((), [s!"VC uint {w} {v} {ob} " ++ valueLine (importUint (nat! w) (nat! v) (nat! ob))])
+    ((), [s!"VC uint {w} {v} {ob} " ++ valueLine (importUint (nat! w) (nat! v) (ob.toInt?.getD 0))])
+  | "V" :: "show" :: w :: v :: tn :: _ =>
+    -- the simulator's show path: ImportUint(value, t.GetSize()) then CastType(t); any-size types only
+    let t? : Option NType := if tn = "unsigned" then some .unsigned else if tn = "signed" then some .signed
+      else if tn = "hex" then some .hex else if tn = "bin" then some .bin else none
+    match t? with
+    | some t => ((), [s!"VC show {w} {v} {tn} size=-1 " ++ valueLine (castType (importUint (nat! w) (nat! v) (-1)) t)])
+    | none => ((), [s!"VU show {w} {v} {tn}"])
   | "V" :: "bytes" :: bits :: behex :: cast :: _ =>
     let t : NType := if cast = "hex" then .hex else if cast = "bin" then .bin else .unsigned
     ((), [s!"VC bytes {bits} {behex} {cast} " ++ valueLine (castType (importBytes (unhexBytes behex) (nat! bits)) t)])
